@@ -1,10 +1,79 @@
 (* C04 — a tick patch replays to exactly the state the tick produced.
    Only property theorems live here: each is closed by [exact], pinned by
-   [Check ... : statement] and followed by [Print Assumptions]. *)
+   [Check ... : statement] and followed by [Print Assumptions].
+
+   Model: Model/Patch.v (tick_patch.rs diff/apply + the GraphStore/WarpState operations it drives),
+   as of /repo commits c24eacb, fd806f7, 8f26be3, which fixed the three replay defects this
+   property found (the corresponding witnesses are the Examples at the end).
+   WFs = canonical maps, stores/instances in step, attachments on existing owners;
+   WF  = WFs + edges reference existing nodes + the portal invariants the code validates. *)
 From Coq Require Import List NArith Bool Sorted.
-From Echo Require Import Base.FinMap Model.Patch Proofs.PatchProofs Proofs.PatchProofs2 Proofs.PatchProofs3.
+From Echo Require Import Base.FinMap Model.Patch Proofs.PatchProofs Proofs.PatchProofs2 Proofs.PatchProofs3
+  Proofs.PatchProofs4.
 Import ListNotations.
 Open Scope N_scope.
+
+(* "Never a third state": the delta between two (structurally) well-formed states either fails
+   with a typed error or transforms the first into exactly the second. *)
+Theorem diff_apply_exact : forall a b s,
+  WFs a -> WFs b -> apply_ops (diff a b) a = Ok s -> s = b.
+Proof. exact diff_apply_exact_struct. Qed.
+Check diff_apply_exact : forall a b s,
+  WFs a -> WFs b -> apply_ops (diff a b) a = Ok s -> s = b.
+Print Assumptions diff_apply_exact.
+
+(* Every transition into a well-formed state replays: the delta applies and yields exactly that state
+   (for every op: its target instance, owner, isolation ... hold at its position in canonical order,
+   and the final portal validation passes). *)
+Theorem diff_apply_complete : forall a b,
+  WFs a -> WF b -> apply_ops (diff a b) a = Ok b.
+Proof. exact diff_apply_complete_wf. Qed.
+Check diff_apply_complete : forall a b,
+  WFs a -> WF b -> apply_ops (diff a b) a = Ok b.
+Print Assumptions diff_apply_complete.
+
+(* A committed tick (its ops applied successfully to the pre-state) whose post-state is well-formed
+   emits a patch that replays the pre-state to exactly the post-state. *)
+Theorem diff_apply_tick : forall ops a b,
+  WFs a -> apply_ops ops a = Ok b -> WF b -> apply_ops (diff a b) a = Ok b.
+Proof. exact diff_apply_tick_wf. Qed.
+Check diff_apply_tick : forall ops a b,
+  WFs a -> apply_ops ops a = Ok b -> WF b -> apply_ops (diff a b) a = Ok b.
+Print Assumptions diff_apply_tick.
+
+(* [WF b] cannot be dropped from the tick clause: UpsertEdge does not check its endpoints, a tick may
+   leave a dangling edge, and then the emitted patch does not apply (typed error, not a third state). *)
+Theorem diff_apply_tick_dangling_refuted : exists ops a b e,
+  wfb a = true /\ apply_ops ops a = Ok b /\ wfsb b = true /\ refb b = false /\
+  apply_ops (diff a b) a = Err e.
+Proof.
+  exists (patch_new w4_ops), w2_before, w4_after, (NodeNotIsolated 1 3).
+  destruct w4_facts as (H1 & H2 & H3 & H4 & H5). auto.
+Qed.
+Check diff_apply_tick_dangling_refuted : exists ops a b e,
+  wfb a = true /\ apply_ops ops a = Ok b /\ wfsb b = true /\ refb b = false /\
+  apply_ops (diff a b) a = Err e.
+Print Assumptions diff_apply_tick_dangling_refuted.
+
+(* The diff is in canonical order with pairwise distinct sort keys ... *)
+Theorem diff_canonical : forall a b, Struct a -> Struct b ->
+  StronglySorted key_lt (map sort_key (diff a b)).
+Proof. exact diff_strictly_sorted. Qed.
+Check diff_canonical : forall a b, Struct a -> Struct b ->
+  StronglySorted key_lt (map sort_key (diff a b)).
+Print Assumptions diff_canonical.
+
+(* ... so the patch constructor (sort + last-wins dedupe by sort key) is the identity on it. *)
+Theorem patch_constructor_identity : forall a b, Struct a -> Struct b -> patch_new (diff a b) = diff a b.
+Proof. exact patch_new_diff. Qed.
+Check patch_constructor_identity : forall a b, Struct a -> Struct b -> patch_new (diff a b) = diff a b.
+Print Assumptions patch_constructor_identity.
+
+(* Every op list keeps the structural invariant (canonical maps, stores and instances in step). *)
+Theorem Struct_preserved : forall ops a s, Struct a -> apply_ops ops a = Ok s -> Struct s.
+Proof. exact apply_ops_Struct. Qed.
+Check Struct_preserved : forall ops a s, Struct a -> apply_ops ops a = Ok s -> Struct s.
+Print Assumptions Struct_preserved.
 
 (* "A failed application is never reported as success": the first failing op is the result
    of the whole application, whatever follows it ... *)
@@ -28,47 +97,29 @@ Check apply_ok_means_all_applied : forall ops a s,
   exists t, apply_loop a false ops = Ok (s, t) /\ (t = true -> validate_portal_invariants s = Ok tt).
 Print Assumptions apply_ok_means_all_applied.
 
-(* FULL STATEMENT (false of the code, DESIGN section 6 F1):
-     diff_apply_exact : WF a -> WF b -> forall s, apply_ops (diff a b) a = Ok s -> s = b.
-   Refuted: an edge that changes its source node and keeps its attachment. *)
-Theorem diff_apply_exact_refuted : exists a b s,
-  wfb a = true /\ wfb b = true /\ apply_ops (diff a b) a = Ok s /\ s <> b.
+(* Non-vacuity, and the three transitions that did not replay before the fixes: an edge re-parented
+   with its attachment kept, an edge re-targeted off a node deleted in the same tick, a portal opened
+   on a node created in the same tick.  All states are well-formed, each is a committed tick, and each
+   emitted patch now replays to exactly the post-state. *)
+Example c04_nonvacuous :
+  WF w1_before /\ WF w1_after /\ WF w2_before /\ WF w2_after /\ WF w3_before /\ WF w3_after /\
+  apply_ops [UpsertEdge 1 9 2 3 8] w1_before = Ok w1_after /\
+  diff w1_before w1_after =
+    [DeleteEdge 1 1 9; UpsertEdge 1 9 2 3 8; SetAtt (edge_beta 1 9) (Some (Atom 5 [1;2]))] /\
+  apply_ops (diff w1_before w1_after) w1_before = Ok w1_after /\
+  apply_ops (patch_new w2_ops) w2_before = Ok w2_after /\
+  diff w2_before w2_after = [DeleteEdge 1 1 9; DeleteNode 1 3; UpsertEdge 1 9 1 2 8] /\
+  apply_ops (diff w2_before w2_after) w2_before = Ok w2_after /\
+  apply_ops (patch_new w3_ops) w3_before = Ok w3_after /\
+  diff w3_before w3_after =
+    [UpsertWI 4 5 (Some (node_alpha 1 2)); UpsertNode 1 2 7; UpsertNode 4 5 6;
+     SetAtt (node_alpha 1 2) (Some (Descend 4))] /\
+  apply_ops (diff w3_before w3_after) w3_before = Ok w3_after.
 Proof.
-  exists w1_before, w1_after, w1_third.
-  destruct w1_facts as (Ha & Hb & _ & _ & Hs & Hne). auto.
+  destruct w1_facts as (A1 & B1 & C1 & D1 & E1 & _).
+  destruct w2_facts as (A2 & B2 & C2 & D2 & E2).
+  destruct w3_facts as (A3 & B3 & C3 & D3 & E3).
+  split; [apply wfb_sound, A1|]. split; [apply wfb_sound, B1|]. split; [apply wfb_sound, A2|].
+  split; [apply wfb_sound, B2|]. split; [apply wfb_sound, A3|]. split; [apply wfb_sound, B3|].
+  repeat split; assumption.
 Qed.
-Check diff_apply_exact_refuted : exists a b s,
-  wfb a = true /\ wfb b = true /\ apply_ops (diff a b) a = Ok s /\ s <> b.
-Print Assumptions diff_apply_exact_refuted.
-
-(* ... and that is the only way to reach a third state: whenever the diff re-establishes the
-   attachment of every re-parented edge ([reparent_ok], the minimal exclusion: it is exactly
-   what the witness above violates), a replay that succeeds yields exactly the after state.
-   Needs structural well-formedness only (canonical maps, stores/instances in step, attachments
-   on existing owners); typed failures are allowed by this clause. *)
-Theorem diff_apply_exact_partial : forall a b s,
-  WFs a -> WFs b -> reparent_ok a b = true -> apply_ops (diff a b) a = Ok s -> s = b.
-Proof. exact diff_apply_exact_struct. Qed.
-Check diff_apply_exact_partial : forall a b s,
-  WFs a -> WFs b -> reparent_ok a b = true -> apply_ops (diff a b) a = Ok s -> s = b.
-Print Assumptions diff_apply_exact_partial.
-
-(* The diff is in canonical order with pairwise distinct sort keys ... *)
-Theorem diff_canonical : forall a b, Struct a -> Struct b ->
-  StronglySorted key_lt (map sort_key (diff a b)).
-Proof. exact diff_strictly_sorted. Qed.
-Check diff_canonical : forall a b, Struct a -> Struct b ->
-  StronglySorted key_lt (map sort_key (diff a b)).
-Print Assumptions diff_canonical.
-
-(* ... so the patch constructor (sort + last-wins dedupe by sort key) is the identity on it. *)
-Theorem patch_constructor_identity : forall a b, Struct a -> Struct b -> patch_new (diff a b) = diff a b.
-Proof. exact patch_new_diff. Qed.
-Check patch_constructor_identity : forall a b, Struct a -> Struct b -> patch_new (diff a b) = diff a b.
-Print Assumptions patch_constructor_identity.
-
-(* Every op keeps the structural invariant, whatever the op list. *)
-Theorem Struct_preserved : forall ops a s, Struct a -> apply_ops ops a = Ok s -> Struct s.
-Proof. exact apply_ops_Struct. Qed.
-Check Struct_preserved : forall ops a s, Struct a -> apply_ops ops a = Ok s -> Struct s.
-Print Assumptions Struct_preserved.
